@@ -40,14 +40,23 @@ func checkParsesAs(t *fw.T, tree *gen.Node, lays []NamedLayout, label string) {
 		var po ParseOut
 		// every third text is parsed by a parser built from a long-lived builder that served other modes before
 		recycled := i%3 == 2
+		// ... and every third text by a tolerant-mode parser: on a valid program tolerant mode has nothing to forgive,
+		// the tree is a function of the token sequence there as well
+		tolerant := i%3 == 1
 		if !t.Guard("parse", wit, func() {
-			if recycled {
+			switch {
+			case recycled:
 				po = parseRecycled(src, t.Index+i)
-			} else {
+			case tolerant:
+				po = parse(src, Mode{Tolerant: true})
+			default:
 				po = parse(src, Mode{})
 			}
 		}) {
 			continue
+		}
+		if tolerant {
+			t.Count("texts_parsed_in_tolerant_mode", 1)
 		}
 		if recycled {
 			t.Count("texts_parsed_by_a_long_lived_reconfigured_builder", 1)
